@@ -233,7 +233,7 @@ func runWorker(specFile string) int {
 			}
 			// keep witnesses only for a sample of the ok paths (all others keep theirs)
 			if rec.Outcome == "ok" && len(cex) == 0 && len(rec.Emits) == 0 {
-				if !(npaths <= 40 || rng.Intn(20) == 0) {
+				if !(npaths <= 40 || rng.Intn(20) == 0 || spec.Property == "SELF") {
 					rec.Witness = nil
 					rec.Trace = nil
 					rec.DecisionsV = nil
@@ -294,7 +294,11 @@ type harnessResult struct {
 	maxPathsIn int
 }
 
+// restrictedRun: --harness or --cases was given (debugging run).
+var restrictedRun bool
+
 func runProperty(id, tier, onlyHarness, onlyCases string, nworkers int, noReplay bool) int {
+	restrictedRun = onlyHarness != "" || onlyCases != ""
 	t0 := time.Now()
 	p := findProperty(id)
 	if p == nil {
@@ -817,6 +821,9 @@ func finish(p *propertySpec, tier string, seed int64, results []*harnessResult, 
 	if tier == "thorough" {
 		K = 200
 	}
+	if p.ID == "SELF" {
+		K = 1 << 30 // the self-test replays every path
+	}
 	type sample struct {
 		h   *harnessSpec
 		rec *interp.PathRecord
@@ -825,6 +832,9 @@ func finish(p *propertySpec, tier string, seed int64, results []*harnessResult, 
 	for _, hr := range results {
 		idx := rng.Perm(len(hr.okSamples))
 		k := K / len(results)
+		if p.ID == "SELF" {
+			k = len(idx)
+		}
 		if k < 5 {
 			k = 5
 		}
@@ -1095,7 +1105,11 @@ func finish(p *propertySpec, tier string, seed int64, results []*harnessResult, 
 		},
 	}
 	b, _ := json.MarshalIndent(ev, "", " ")
-	os.WriteFile(filepath.Join(outDir, "evidence", p.ID+".json"), b, 0o644)
+	name := p.ID + ".json"
+	if restrictedRun {
+		name = p.ID + ".partial.json" // a debugging run of one harness / some cases must not replace the evidence of the whole check
+	}
+	os.WriteFile(filepath.Join(outDir, "evidence", name), b, 0o644)
 
 	fmt.Printf("SUMMARY property=%s tier=%s paths=%d forks=%d obligations=%d discharged=%d queries=%d solver_s=%.1f validated=%d cex=%d reproduced=%d known=%d wall_s=%.1f\n",
 		p.ID, tier, tot.paths, tot.forks, tot.obligations, tot.discharged, tot.queries, tot.solverS, validated, cexFound, cexRepro, knownSeen, time.Since(t0).Seconds())
